@@ -132,7 +132,7 @@ def case_strategy():
         n = draw(st.sampled_from([6, 12, 20, 30]))
         ops = []
         for _ in range(n):
-            k = draw(st.sampled_from(["call"] * 8 + ["reg", "unreg", "noop", "derive", "dupreg"]))
+            k = draw(st.sampled_from(["call"] * 8 + ["reg", "unreg", "noop", "derive", "dupreg", "unreg-unknown", "mixin"]))
             if k == "call":
                 ops.append(["call", draw(st.integers(0, len(pool) - 1))])
             else:
@@ -165,6 +165,7 @@ def run_case(spec):
     try:
         registered = [m["id"] for m in spec["methods"]]
         warmed = {}
+        extra_mixin = [None]
         seen_combos = set()
         consulted_in_warmup = 0
         nested_repeat = False
@@ -242,6 +243,32 @@ def run_case(spec):
                     capture(child.dispatch if hasattr(child, "dispatch") else child,
                             *([prog.obj] if prog.is_method else []), *a0, **k0)
                 res.label("op:derive-and-use-a-variant")
+            elif mutable and op[0] == "unreg-unknown":
+                # unregistering a function that was never registered changes nothing
+                r = capture(prog.ov.unregister, lambda x: None)
+                if r.kind not in ("ok", "config"):
+                    res.fail(f"unregister(<a function that was never registered>) raised {r.brief()}", None)
+                    break
+                res.label("op:unregister-unknown-function")
+            elif mutable and op[0] == "mixin":
+                # the first add_mixins(E) of an (empty) function E is a change of the derivation; adding E AGAIN is not
+                first = extra_mixin[0] is None
+                if first:
+                    import ovld as _ovld
+
+                    extra_mixin[0] = _ovld.Ovld()
+                r = capture(prog.ov.add_mixins, extra_mixin[0])
+                if r.kind == "config":
+                    if first:
+                        extra_mixin[0] = None
+                    continue
+                if r.kind != "ok":
+                    res.fail(f"add_mixins(<empty function>) raised {r.brief()}", None)
+                    break
+                if first:
+                    warmed.clear()
+                    seen_combos.clear()
+                res.label("op:add_mixins-first" if first else "op:add_mixins-same-again")
             elif mutable and op[0] == "noop":
                 # operations that do not change the set of methods: adding no mixin / the function itself
                 r = capture(prog.ov.add_mixins) if op[1] % 2 else capture(prog.ov.add_mixins, prog.ov)
